@@ -320,3 +320,77 @@ pub fn eq_max_b<W: Fn(&u8) -> usize>(t: &[u8], w: W) -> usize {
         None => 0,
     }
 }
+
+// ---- a cursor: the value read before the store is not the value read after it
+pub struct Cur {
+    pub idx: usize,
+    pub w: u32,
+}
+fn advance(c: &mut Cur) -> (usize, ()) {
+    let i = c.idx;
+    c.idx = i + 1;
+    (i, ())
+}
+pub fn eq_snap_a<F: Fn(&u32)>(c: &mut Cur, t: &[u8], f: F) -> u8 {
+    let i = c.idx;
+    c.idx += 1;
+    f(&c.w);
+    t[i]
+}
+pub fn eq_snap_b<F: Fn(&u32)>(c: &mut Cur, t: &[u8], f: F) -> u8 {
+    let (i, _) = advance(c);
+    f(&c.w);
+    t[i]
+}
+pub fn ne_snap_a<F: Fn(&u32)>(c: &mut Cur, t: &[u8], f: F) -> u8 {
+    eq_snap_a(c, t, f)
+}
+pub fn ne_snap_b<F: Fn(&u32)>(c: &mut Cur, t: &[u8], f: F) -> u8 {
+    c.idx += 1;
+    f(&c.w);
+    t[c.idx]
+}
+
+// ---- try_for_each over an infallible step  ==  for
+pub fn eq_tfe_a<F: FnMut(&u8)>(t: &[u8], mut f: F) {
+    for x in t {
+        f(x);
+    }
+}
+pub fn eq_tfe_b<F: FnMut(&u8)>(t: &[u8], mut f: F) {
+    let _: Result<(), std::convert::Infallible> = t.iter().try_for_each(|x| {
+        f(x);
+        Ok(())
+    });
+}
+pub fn eq_tfe_c<F: FnMut(&u8)>(t: &[u8], mut f: F) {
+    let mut i = 0;
+    while i < t.len() {
+        f(&t[i]);
+        i += 1;
+    }
+}
+
+// ---- countdown  ==  counting up, when the body does not look at the counter
+pub fn eq_count_a<F: FnMut()>(n: usize, mut f: F) {
+    for _ in 0..n {
+        f();
+    }
+}
+pub fn eq_count_b<F: FnMut()>(n: usize, mut f: F) {
+    let mut left = n;
+    while left > 0 {
+        f();
+        left -= 1;
+    }
+}
+pub fn ne_count_a<F: FnMut()>(n: usize, f: F) {
+    eq_count_a(n, f)
+}
+pub fn ne_count_b<F: FnMut()>(n: usize, mut f: F) {
+    let mut left = n;
+    while left > 1 {
+        f();
+        left -= 1;
+    }
+}
